@@ -5,6 +5,7 @@ import Driver.OpsFail
 import Driver.OpsAcct
 import Driver.OpsProf
 import Driver.OpsEV
+import Driver.OpsGraph
 
 namespace Driver
 
@@ -20,6 +21,7 @@ def step (st : DState) (line : String) : DState × String :=
       match opsEV st.ev args with
       | some (b, out) => ({ st with ev := b }, out)
       | none => (st, "bad-op")
+  | "graph" :: args => (st, (opsGraph args).getD "bad-op")
   | "prof" :: args => (st, (opsProf args).getD "bad-op")
   | "acct" :: args =>
       match opsAcct st.acct args with
